@@ -1,4 +1,5 @@
 import BoltonsVerif.C20.Proofs
+import BoltonsVerif.C20.SizeLog
 /-
 C20 — property theorems for the ThresholdCounter model (nothing but statements,
 their short derivations from `Proofs.lean`, and non-vacuity examples).
@@ -160,11 +161,42 @@ theorem size_bound_partial (w : Nat) (hw : 1 ≤ w) (ks : List K) :
   have ht := total_eq_additions w ks
   exact ⟨by simpa [TC.len, ht] using hi.len_le, by simpa [TC.commonCount, ht] using hi.sum_le⟩
 
+/-- the space bound that DOES hold (Manku & Motwani's `(1/ε)·log(εN)`, here with `w = ⌊1/ε⌋ ≤ 1/ε` and the
+    binary logarithm): after `N` additions at most `w · (⌊log2(⌊N/w⌋ + 1)⌋ + 1)` keys are tracked.
+    Full clause of the statement ("never exceeds 2/threshold") is false: `size_bound_false`. -/
+theorem size_bound_log (w : Nat) (hw : 1 ≤ w) (ks : List K) :
+    (reach w ks).len ≤ w * ((ks.length / w + 1).log2 + 1) := by
+  have h := len_le_log_of_inv2 _ (inv2_reach w hw ks)
+  have hww : (reach w ks).w = w := by simp [reach, addAll_w, TC.init]
+  have ht := total_eq_additions w ks
+  simp only [reach] at hww ht
+  rw [hww, ht] at h
+  exact h
+
+/-- … in particular the `2/threshold` clause does hold during the first three buckets
+    (`N < 3·w` additions): it can only fail later -/
+theorem size_bound_early (w : Nat) (hw : 1 ≤ w) (ks : List K) (hN : ks.length < 3 * w) :
+    (reach w ks).len ≤ 2 * w := by
+  have h := size_bound_log w hw ks
+  have hq : ks.length / w < 3 := (Nat.div_lt_iff_lt_mul (by omega)).mpr hN
+  have hl : (ks.length / w + 1).log2 ≤ 1 := by
+    generalize ks.length / w = q at hq ⊢
+    have h4 : q + 1 < 2 ^ 2 := by show q + 1 < 4; omega
+    have := (Nat.log2_lt (by omega)).mpr h4
+    omega
+  calc (reach w ks).len ≤ w * ((ks.length / w + 1).log2 + 1) := h
+    _ ≤ w * 2 := Nat.mul_le_mul_left _ (by omega)
+    _ = 2 * w := Nat.mul_comm ..
+
 /-! non-vacuity: a concrete stream on which keys are evicted and under-counted -/
 example : (reach 3 [0, 1, 1, 0, 2, 2, 0]).items = [(2, 2), (0, 1)] := by decide
 example : ((reach 3 [0, 1, 1, 0, 2, 2, 0]).get 0, [0, 1, 1, 0, 2, 2, 0].count 0,
            (reach 3 [0, 1, 1, 0, 2, 2, 0]).total / 3) = (1, 3, 2) := by decide
 example : (reach 24 sizeWitness).len = 49 := by decide +kernel
+-- the logarithmic bound on the witness of `size_bound_false`: 49 ≤ 24 · (log2(95/24 + 1) + 1) = 72
+example : 24 * ((sizeWitness.length / 24 + 1).log2 + 1) = 72 := by decide +kernel
+-- … and it is attained: w = 1, one addition, one tracked key = 1 · (log2 2 + 1) - 1 … exactly w·1 for N < w
+example : (reach 3 [0, 1]).len = 2 ∧ 3 * (([0, 1].length / 3 + 1).log2 + 1) = 3 := by decide
 -- a key given positionally (3) and as a keyword (2) in ONE update call is counted 5 times
 example : ((TC.run 9 [Op.updateMapKw [(0, 3), (1, 1)] [(0, 2)]]).get 0,
            (TC.run 9 [Op.updateMapKw [(0, 3), (1, 1)] [(0, 2)]]).total) = (5, 6) := by decide
